@@ -74,13 +74,12 @@ Lemma parse_work_call_linear : work_linear parse_work_call.
 Proof.
   intros n. unfold parse_work_call. replace CALL_PREFIX_PARSES with 1 by reflexivity. rewrite work_k1. lia.
 Qed.
-(* the two shapes that still double *)
-Lemma parse_work_macro_refuted : ~ work_linear parse_work_macro.
-Proof. intro F. specialize (F 3%nat). vm_compute in F. apply F. reflexivity. Qed.
-Lemma parse_work_macro_doubles : forall n, 2 ^ Z.of_nat n <= parse_work_macro n.
+(* macro calls m!(m!(...)): linear since /repo af8f8af (token lookahead in ppcallprim) *)
+Lemma parse_work_macro_linear : work_linear parse_work_macro.
 Proof.
-  intros n. unfold parse_work_macro. replace MACRO_PREFIX_PARSES with 2 by reflexivity. apply work_ge_pow. lia.
+  intros n. unfold parse_work_macro. replace MACRO_PREFIX_PARSES with 1 by reflexivity. rewrite work_k1. lia.
 Qed.
+(* the shape that still doubles *)
 Lemma parse_work_assign_callidx_refuted : ~ work_linear parse_work_assign_callidx.
 Proof. intro F. specialize (F 3%nat). vm_compute in F. apply F. reflexivity. Qed.
 Lemma parse_work_assign_callidx_doubles : forall n, 2 ^ Z.of_nat n <= parse_work_assign_callidx n.
